@@ -69,6 +69,9 @@ func init() {
 	// ---- time ----
 	reg(func(fr *frame, args []value) value {
 		in := fr.in
+		if in.inInit > 0 {
+			return structure{in.ts.BV(0, 64), in.ts.BV(1600000000, 64), (*value)(nil)}
+		}
 		// time.Time{wall uint64, ext int64, loc *Location}; ext = arbitrary non-decreasing instant
 		t := in.freshVar("time.Now", 64)
 		if in.lastTime != nil {
@@ -335,6 +338,30 @@ func init() {
 		in := fr.in
 		return tuple{in.ts.BV(0, 64), iface{}}
 	}, "fmt.Printf", "fmt.Println", "fmt.Print", "fmt.Fprintf", "fmt.Fprintln", "fmt.Fprint")
+
+	// ---- math/rand: seeding is a no-op, draws are arbitrary values ----
+	reg(func(fr *frame, args []value) value { return nil }, "math/rand.Seed", "(*math/rand.Rand).Seed", "(*math/rand.rngSource).Seed", "(*math/rand.lockedSource).seed")
+	randInt := func(w int, bounded bool) intrinsicFn {
+		return func(fr *frame, args []value) value {
+			in := fr.in
+			if in.inInit > 0 {
+				return in.ts.BV(4, w)
+			}
+			v := in.freshVar("rand", w)
+			in.assume(in.ts.Cmp(OpSLe, in.ts.BV(0, w), v))
+			if bounded {
+				n := in.asTerm(args[len(args)-1], "rand bound")
+				in.assume(in.ts.Cmp(OpSLt, v, n))
+			}
+			return v
+		}
+	}
+	reg(randInt(64, false), "math/rand.Int63", "math/rand.Int", "(*math/rand.Rand).Int63", "(*math/rand.Rand).Int")
+	reg(randInt(32, false), "math/rand.Int31", "(*math/rand.Rand).Int31")
+	reg(randInt(64, true), "math/rand.Intn", "math/rand.Int63n", "(*math/rand.Rand).Intn", "(*math/rand.Rand).Int63n")
+	reg(randInt(32, true), "math/rand.Int31n", "(*math/rand.Rand).Int31n")
+	reg(func(fr *frame, args []value) value { return fr.in.freshVar("rand", 32) }, "math/rand.Uint32", "(*math/rand.Rand).Uint32")
+	reg(func(fr *frame, args []value) value { return fr.in.freshVar("rand", 64) }, "math/rand.Uint64", "(*math/rand.Rand).Uint64")
 
 	// ---- os / io noise ----
 }
@@ -639,6 +666,24 @@ func (in *interp) harnessAPI(fr *frame, name string, args []value) (value, bool)
 			return out
 		})
 		return copySlice(res), true
+	case "vSelectBytes":
+		// vSelectBytes(k int, pool [][]byte, other []byte) []byte : pool[k] if 0<=k<len(pool), else other (no fork)
+		k := in.norm64(in.asTerm(args[0], "vSelectBytes index"), true)
+		pool, _ := args[1].([]value)
+		other, _ := args[2].([]value)
+		out := make([]value, len(other))
+		for b := range other {
+			r := in.asTerm(other[b], "byte")
+			for j := len(pool) - 1; j >= 0; j-- {
+				pj, _ := pool[j].([]value)
+				if len(pj) != len(other) {
+					in.unsupported("vSelectBytes: pool entries must have the length of the default")
+				}
+				r = ts.Ite(ts.Eq(k, ts.BVi(int64(j), 64)), in.asTerm(pj[b], "byte"), r)
+			}
+			out[b] = r
+		}
+		return out, true
 	case "vEvent":
 		in.event("harness", goString(fr, args[0]))
 		return nil, true
